@@ -25,8 +25,9 @@ def run(chk):
     thorough = chk.tier == "thorough"
     chk.rule = ("peak live heap (counting global allocator, in-process, same BufReader/BufWriter capacities as main) for growing sizes; -M: one line "
                 "of N bytes (no delimiter selected / no delimiter unselected with fallback / delimiter every 8 bytes with an open range / two "
-                "separate fields); -f fast and general path, -c, --json, -l ascending: R records of ~10 bytes; a run counts as non-trivial when it "
-                "processed ≥ 1 MiB; control: the buffered -l (negative index) must be SEEN to grow, which shows the measurement is sensitive")
+                "separate fields); -f fast and general path, -c, --json, -l ascending: R records of ~10 bytes; plus 30 (thorough: 120) random option sets per run — -f with subsets of "
+                "-g -p -t -s -j -r --json and random bounds / delimiters / record shapes, -M with random bounds / -j / -r / patterns, -l with random "
+                "ascending requests — at 64 KiB and 8 MiB (thorough: 64 MiB); a run counts as non-trivial when it processed ≥ 1 MiB; control: the buffered -l (negative index) must be SEEN to grow, which shows the measurement is sensitive")
     line_sizes = [1 << 20, 1 << 24, 1 << 28] if thorough else [1 << 18, 1 << 22, 1 << 26]
     rec_counts = [10 ** 3 * 4, 10 ** 5 * 4, 10 ** 7] if thorough else [1000, 16000, 256000 * 4]
     scen = []
@@ -66,6 +67,55 @@ def run(chk):
                 chk.nontrivial_add((name, nbytes))
             if st != "ok" or pk < 0:
                 chk.report_oracle("memory scenario did not run to a successful end", {"scenario": name, "args": args, "result": [pk, st, out]})
+        rows.append({"scenario": name, "input_bytes": [n for _, n in runs], "peak_live_heap_bytes": peaks})
+        if peaks[-1] > peaks[0] + SLACK:
+            chk.report_oracle("peak memory grows with the size it must be independent of",
+                              {"scenario": name, "args_smallest": runs[0][0], "args_largest": runs[-1][0], "input_bytes": [n for _, n in runs], "peaks": peaks})
+    # random scenarios: option sets nobody listed by hand, measured at two sizes along the dimension the bound must not depend on
+    from cases import rand_field_case
+    from common import case_line
+    rng = chk.rng
+    small, large = (64 << 10, 8 << 20) if not thorough else (64 << 10, 64 << 20)
+
+    def toks(c):
+        return [t for t in case_line(c).split(" ")[1:] if not t.startswith(("in=", "eng=", "seg=", "sw="))]
+    rnd = []
+    for _ in range(30 if not thorough else 120):
+        fam = rng.choice(["records", "records", "M", "M", "lines"])
+        if fam == "records":
+            c = rand_field_case(rng, eng="auto", allow=("g", "p", "t", "s", "j", "r", "fb", "json"), fmt_p=0.3)
+            c["fb"] = c.get("fb") or b"G"
+            c.pop("z", None)
+            recs = [r for r in c["in"].split(b"\n") if b"\xff" not in r or not c.get("json")][:3] or [b"x"]
+            pat = b"\n".join(recs) + b"\n"
+            name = "random -f option set, many records: " + " ".join(toks(c))
+        elif fam == "M":
+            c = {"kind": "cut", "M": True, "d": b"-", "b": rng.choice(["1", "2", "1,3", "2:3", "2:", "{1}x{2}", "1,2=F", "3=F", ":2", "1:"]), "fb": b"G"}
+            if rng.random() < 0.4:
+                c["j"] = True
+            if rng.random() < 0.3:
+                c["r"] = b"/"
+                c["j"] = True
+            pat = rng.choice([b"aaaaaaa-", b"aaaaaaaa", b"a-", b"-", b"aaaa\n", b"a-b-c-d\n", b"\n", b"a-\n"])
+            name = "random -M option set: " + " ".join(toks(c)) + " pattern " + repr(pat)
+        else:
+            c = {"kind": "cut", "bt": "l", "d": b"\n", "b": rng.choice(["1", "2,5:", "3:4,9", "1:", "2,4,6:", "7"]), "j": rng.random() < 0.7}
+            pat = rng.choice([b"aa\n", b"\n", b"abcdefghij\n", b"a\nbb\n"])
+            name = "random -l ascending request: " + " ".join(toks(c)) + " pattern " + repr(pat)
+        runs = [(toks(c) + ["pat=" + hx(pat), f"count={max(1, n // len(pat))}", "tail=" + hx(b"\n")], n) for n in (small, large)]
+        rnd.append((name, runs))
+    for name, runs in rnd:
+        peaks, sts = [], []
+        for args, nbytes in runs:
+            pk, st, out = mem(args)
+            chk.evaluations += 1
+            peaks.append(pk)
+            sts.append(st)
+        if sts[0] != "ok" or sts[1] != "ok":
+            chk.count("random-scenario:did-not-succeed")          # a data-dependent failure (e.g. -s dropping everything is fine, an empty complement is not): not a memory fact
+            continue
+        chk.count("random-scenario:measured")
+        chk.nontrivial_add((name, runs[-1][1]))
         rows.append({"scenario": name, "input_bytes": [n for _, n in runs], "peak_live_heap_bytes": peaks})
         if peaks[-1] > peaks[0] + SLACK:
             chk.report_oracle("peak memory grows with the size it must be independent of",
